@@ -13,6 +13,19 @@
 (* acquire writer, drop the oldest token it holds).  A token is live from the step *)
 (* in which acquire returns until the step in which its release starts (the        *)
 (* contract's notion, Tokens.tla).                                                 *)
+(*                                                                                 *)
+(* Repaired protocol only: the per-thread token cache of fsa/token.rs (one reader  *)
+(* slot and one writer slot per thread; TokenManager front-ends over ONE manager): *)
+(*   "TR"/"TW"   TokenManager::acquire_*_token: the slot's token if there is one   *)
+(*               (no step inside the manager), else a fresh acquisition            *)
+(*   "C"         return_*_token of the oldest held token: into the slot; a token   *)
+(*               already there is displaced = released                            *)
+(*   "X"         clear_thread_cache: releases the slot reader, then the slot writer *)
+(*   "SR"/"SW"   with_reader_token / with_writer_token whose closure returns Ok:   *)
+(*               acquire as "TR"/"TW", the closure runs (pc "s.in", a schedule      *)
+(*               point inside it), then the token goes to the slot as with "C"     *)
+(*   "SRe"/"SWe" the same with a closure returning Err: the token is released      *)
+(* A token in a slot is live (Tokens.tla).                                         *)
 EXTENDS Naturals, Sequences, FiniteSets, TLC
 
 CONSTANTS Threads, Prog, Fixed, OneWriterMode
@@ -21,20 +34,28 @@ VARIABLES cur, min, ar, aw,      \* the manager's atomics
           pc, ip,                \* per thread: program counter inside an op, index into Prog
           ver, saw,              \* per-thread registers
           held,                  \* per thread: sequence of tokens [kind, ver] it holds (live)
+          slot,                  \* per thread: kind -> <<>> or <<token>>: the thread-local token cache
           sched                  \* history: thread id of every step (hidden by VIEW in MC configs)
 
-vars == <<cur, min, ar, aw, pc, ip, ver, saw, held, sched>>
-view == <<cur, min, ar, aw, pc, ip, ver, saw, held>>
+vars == <<cur, min, ar, aw, pc, ip, ver, saw, held, slot, sched>>
+view == <<cur, min, ar, aw, pc, ip, ver, saw, held, slot>>
 
 Init == /\ cur = 1 /\ min = 1 /\ ar = 0 /\ aw = 0
         /\ pc = [t \in Threads |-> "api"] /\ ip = [t \in Threads |-> 1]
         /\ ver = [t \in Threads |-> 0] /\ saw = [t \in Threads |-> 0]
         /\ held = [t \in Threads |-> <<>>]
+        /\ slot = [t \in Threads |-> [k \in {"R", "W"} |-> <<>>]]
         /\ sched = <<>>
 
 Op(t) == IF ip[t] <= Len(Prog[t]) THEN Prog[t][ip[t]] ELSE "end"
 Step(t) == sched' = Append(sched, t)
 NextOp(t) == ip' = [ip EXCEPT ![t] = @ + 1]
+
+ReaderOps == {"R", "TR", "SR", "SRe"}
+WriterOps == {"W", "TW", "SW", "SWe"}
+ViaCache(op) == op \in {"TR", "TW", "SR", "SW", "SRe", "SWe"}
+Scoped(op) == op \in {"SR", "SW", "SRe", "SWe"}
+ScopedErr(op) == op \in {"SRe", "SWe"}
 
 (* ---------------- pinned protocol ---------------- *)
 \* api -> first hook of the operation
@@ -42,30 +63,32 @@ P_StartW(t) == /\ pc[t] = "api" /\ Op(t) = "W" /\ ~Fixed
                /\ IF OneWriterMode
                   THEN saw' = [saw EXCEPT ![t] = aw] /\ pc' = [pc EXCEPT ![t] = "w.loaded"] /\ UNCHANGED <<cur, ver>>
                   ELSE cur' = cur + 1 /\ ver' = [ver EXCEPT ![t] = cur + 1] /\ pc' = [pc EXCEPT ![t] = "w.versioned"] /\ UNCHANGED saw
-               /\ UNCHANGED <<min, ar, aw, ip, held>> /\ Step(t)
+               /\ UNCHANGED <<min, ar, aw, ip, held>> /\ UNCHANGED slot /\ Step(t)
 \* check the loaded value; refused -> back to api (next op); else mutex block
 P_CheckW(t) == /\ pc[t] = "w.loaded"
                /\ IF saw[t] > 0
                   THEN pc' = [pc EXCEPT ![t] = "api"] /\ NextOp(t) /\ UNCHANGED <<cur, ver>>
                   ELSE cur' = cur + 1 /\ ver' = [ver EXCEPT ![t] = cur + 1] /\ pc' = [pc EXCEPT ![t] = "w.versioned"] /\ UNCHANGED ip
-               /\ UNCHANGED <<min, ar, aw, saw, held>> /\ Step(t)
+               /\ UNCHANGED <<min, ar, aw, saw, held>> /\ UNCHANGED slot /\ Step(t)
 P_CountW(t) == /\ pc[t] = "w.versioned"
                /\ aw' = aw + 1 /\ pc' = [pc EXCEPT ![t] = "w.counted"]
-               /\ UNCHANGED <<cur, min, ar, ip, ver, saw, held>> /\ Step(t)
+               /\ UNCHANGED <<cur, min, ar, ip, ver, saw, held>> /\ UNCHANGED slot /\ Step(t)
 P_RetW(t) ==   /\ pc[t] = "w.counted"
                /\ held' = [held EXCEPT ![t] = Append(@, [kind |-> "W", ver |-> ver[t]])]
-               /\ pc' = [pc EXCEPT ![t] = "api"] /\ NextOp(t)
-               /\ UNCHANGED <<cur, min, ar, aw, ver, saw>> /\ Step(t)
+               /\ IF Scoped(Op(t)) THEN pc' = [pc EXCEPT ![t] = "s.in"] /\ UNCHANGED ip
+                                   ELSE pc' = [pc EXCEPT ![t] = "api"] /\ NextOp(t)
+               /\ UNCHANGED <<cur, min, ar, aw, ver, saw>> /\ UNCHANGED slot /\ Step(t)
 P_StartR(t) == /\ pc[t] = "api" /\ Op(t) = "R" /\ ~Fixed
                /\ cur' = cur + 1 /\ ver' = [ver EXCEPT ![t] = cur + 1] /\ pc' = [pc EXCEPT ![t] = "r.versioned"]
-               /\ UNCHANGED <<min, ar, aw, ip, saw, held>> /\ Step(t)
+               /\ UNCHANGED <<min, ar, aw, ip, saw, held>> /\ UNCHANGED slot /\ Step(t)
 P_CountR(t) == /\ pc[t] = "r.versioned"
                /\ ar' = ar + 1 /\ pc' = [pc EXCEPT ![t] = "r.counted"]
-               /\ UNCHANGED <<cur, min, aw, ip, ver, saw, held>> /\ Step(t)
+               /\ UNCHANGED <<cur, min, aw, ip, ver, saw, held>> /\ UNCHANGED slot /\ Step(t)
 P_RetR(t) ==   /\ pc[t] = "r.counted"
                /\ held' = [held EXCEPT ![t] = Append(@, [kind |-> "R", ver |-> ver[t]])]
-               /\ pc' = [pc EXCEPT ![t] = "api"] /\ NextOp(t)
-               /\ UNCHANGED <<cur, min, ar, aw, ver, saw>> /\ Step(t)
+               /\ IF Scoped(Op(t)) THEN pc' = [pc EXCEPT ![t] = "s.in"] /\ UNCHANGED ip
+                                   ELSE pc' = [pc EXCEPT ![t] = "api"] /\ NextOp(t)
+               /\ UNCHANGED <<cur, min, ar, aw, ver, saw>> /\ UNCHANGED slot /\ Step(t)
 \* drop the oldest held token: release starts (token not live any more), fetch_sub
 P_StartD(t) == /\ pc[t] = "api" /\ Op(t) = "D" /\ ~Fixed
                /\ IF held[t] = <<>>
@@ -73,63 +96,115 @@ P_StartD(t) == /\ pc[t] = "api" /\ Op(t) = "D" /\ ~Fixed
                   ELSE /\ held' = [held EXCEPT ![t] = Tail(@)]
                        /\ IF Head(held[t]).kind = "R" THEN ar' = ar - 1 /\ aw' = aw ELSE aw' = aw - 1 /\ ar' = ar
                        /\ pc' = [pc EXCEPT ![t] = "rel.dec"] /\ UNCHANGED ip
-               /\ UNCHANGED <<cur, min, ver, saw>> /\ Step(t)
+               /\ UNCHANGED <<cur, min, ver, saw>> /\ UNCHANGED slot /\ Step(t)
 \* the unlocked zero test (both loads in one step: they share one `if`)
 P_Zero(t) ==   /\ pc[t] = "rel.dec"
                /\ IF ar = 0 /\ aw = 0
                   THEN pc' = [pc EXCEPT ![t] = "adv.zero"] /\ UNCHANGED ip
                   ELSE pc' = [pc EXCEPT ![t] = "api"] /\ NextOp(t)
-               /\ UNCHANGED <<cur, min, ar, aw, ver, saw, held>> /\ Step(t)
+               /\ UNCHANGED <<cur, min, ar, aw, ver, saw, held>> /\ UNCHANGED slot /\ Step(t)
 P_LoadCur(t) == /\ pc[t] = "adv.zero"
                 /\ saw' = [saw EXCEPT ![t] = cur] /\ pc' = [pc EXCEPT ![t] = "adv.cur"]
-                /\ UNCHANGED <<cur, min, ar, aw, ip, ver, held>> /\ Step(t)
+                /\ UNCHANGED <<cur, min, ar, aw, ip, ver, held>> /\ UNCHANGED slot /\ Step(t)
 P_StoreMin(t) == /\ pc[t] = "adv.cur"
                  /\ min' = saw[t] /\ pc' = [pc EXCEPT ![t] = "adv.store"]
-                 /\ UNCHANGED <<cur, ar, aw, ip, ver, saw, held>> /\ Step(t)
+                 /\ UNCHANGED <<cur, ar, aw, ip, ver, saw, held>> /\ UNCHANGED slot /\ Step(t)
 P_RetD(t) ==   /\ pc[t] = "adv.store"
                /\ pc' = [pc EXCEPT ![t] = "api"] /\ NextOp(t)
-               /\ UNCHANGED <<cur, min, ar, aw, ver, saw, held>> /\ Step(t)
+               /\ UNCHANGED <<cur, min, ar, aw, ver, saw, held>> /\ UNCHANGED slot /\ Step(t)
 
 (* ---------------- repaired protocol ---------------- *)
+\* a cache-aware acquisition goes to the manager only when the thread's slot of that kind is empty
+Miss(t, k) == ViaCache(Op(t)) => slot[t][k] = <<>>
 \* one critical section: writer check, version assignment, counter increment
-F_AcqW(t) == /\ pc[t] = "api" /\ Op(t) = "W" /\ Fixed
+F_AcqW(t) == /\ pc[t] = "api" /\ Op(t) \in WriterOps /\ Fixed /\ Miss(t, "W")
              /\ IF OneWriterMode /\ aw > 0
                 THEN pc' = pc /\ NextOp(t) /\ UNCHANGED <<cur, aw, ver>>
                 ELSE cur' = cur + 1 /\ ver' = [ver EXCEPT ![t] = cur + 1] /\ aw' = aw + 1
                      /\ pc' = [pc EXCEPT ![t] = "w.counted"] /\ UNCHANGED ip
-             /\ UNCHANGED <<min, ar, saw, held>> /\ Step(t)
-F_AcqR(t) == /\ pc[t] = "api" /\ Op(t) = "R" /\ Fixed
+             /\ UNCHANGED <<min, ar, saw, held, slot>> /\ Step(t)
+F_AcqR(t) == /\ pc[t] = "api" /\ Op(t) \in ReaderOps /\ Fixed /\ Miss(t, "R")
              /\ cur' = cur + 1 /\ ver' = [ver EXCEPT ![t] = cur + 1] /\ ar' = ar + 1
              /\ pc' = [pc EXCEPT ![t] = "r.counted"]
-             /\ UNCHANGED <<min, aw, ip, saw, held>> /\ Step(t)
+             /\ UNCHANGED <<min, aw, ip, saw, held, slot>> /\ Step(t)
+\* cache hit: the slot's token is handed out; the manager is not involved (no schedule point)
+F_Hit(t) == /\ pc[t] = "api" /\ Fixed /\ ViaCache(Op(t))
+            /\ LET k == IF Op(t) \in ReaderOps THEN "R" ELSE "W" IN
+               /\ slot[t][k] /= <<>>
+               /\ held' = [held EXCEPT ![t] = Append(@, slot[t][k][1])]
+               /\ slot' = [slot EXCEPT ![t][k] = <<>>]
+            /\ IF Scoped(Op(t)) THEN pc' = [pc EXCEPT ![t] = "s.in"] /\ UNCHANGED ip
+                                ELSE pc' = pc /\ NextOp(t)
+            /\ UNCHANGED <<cur, min, ar, aw, ver, saw>> /\ Step(t)
 F_StartD(t) == /\ pc[t] = "api" /\ Op(t) = "D" /\ Fixed
                /\ IF held[t] = <<>>
                   THEN pc' = pc /\ NextOp(t) /\ UNCHANGED <<ar, aw, held>>
                   ELSE /\ held' = [held EXCEPT ![t] = Tail(@)]
                        /\ IF Head(held[t]).kind = "R" THEN ar' = ar - 1 /\ aw' = aw ELSE aw' = aw - 1 /\ ar' = ar
                        /\ pc' = [pc EXCEPT ![t] = "rel.dec"] /\ UNCHANGED ip
-               /\ UNCHANGED <<cur, min, ver, saw>> /\ Step(t)
-\* zero test, load and store in one critical section; then return
+               /\ UNCHANGED <<cur, min, ver, saw, slot>> /\ Step(t)
+\* token tok of thread t goes into the thread's slot; a token already there is displaced = released
+\* (fetch_sub, then the schedule point vm.rel.dec)
+ToSlot(t, tok) ==
+    /\ slot' = [slot EXCEPT ![t][tok.kind] = <<tok>>]
+    /\ IF slot[t][tok.kind] = <<>>
+       THEN pc' = [pc EXCEPT ![t] = "api"] /\ NextOp(t) /\ UNCHANGED <<ar, aw>>
+       ELSE /\ IF tok.kind = "R" THEN ar' = ar - 1 /\ aw' = aw ELSE aw' = aw - 1 /\ ar' = ar
+            /\ pc' = [pc EXCEPT ![t] = "rel.dec"] /\ UNCHANGED ip
+\* return_*_token of the oldest held token
+F_Cache(t) == /\ pc[t] = "api" /\ Op(t) = "C" /\ Fixed
+              /\ IF held[t] = <<>>
+                 THEN pc' = pc /\ NextOp(t) /\ UNCHANGED <<ar, aw, held, slot>>
+                 ELSE held' = [held EXCEPT ![t] = Tail(@)] /\ ToSlot(t, Head(held[t]))
+              /\ UNCHANGED <<cur, min, ver, saw>> /\ Step(t)
+\* the closure of with_*_token ends: Ok -> the token (the newest one held) goes to the slot; Err -> released
+F_ScopeEnd(t) == /\ pc[t] = "s.in" /\ Fixed
+                 /\ LET n == Len(held[t])
+                        tok == held[t][n] IN
+                    /\ held' = [held EXCEPT ![t] = SubSeq(@, 1, n - 1)]
+                    /\ IF ScopedErr(Op(t))
+                       THEN /\ IF tok.kind = "R" THEN ar' = ar - 1 /\ aw' = aw ELSE aw' = aw - 1 /\ ar' = ar
+                            /\ pc' = [pc EXCEPT ![t] = "rel.dec"] /\ UNCHANGED <<ip, slot>>
+                       ELSE ToSlot(t, tok)
+                 /\ UNCHANGED <<cur, min, ver, saw>> /\ Step(t)
+\* clear_thread_cache: the slot reader is released first, then (after its release ran) the slot writer
+F_Clear(t) == /\ pc[t] = "api" /\ Op(t) = "X" /\ Fixed
+              /\ IF slot[t]["R"] /= <<>>
+                 THEN /\ ar' = ar - 1 /\ aw' = aw /\ slot' = [slot EXCEPT ![t]["R"] = <<>>]
+                      /\ pc' = [pc EXCEPT ![t] = "rel.dec"] /\ UNCHANGED ip
+                 ELSE IF slot[t]["W"] /= <<>>
+                 THEN /\ aw' = aw - 1 /\ ar' = ar /\ slot' = [slot EXCEPT ![t]["W"] = <<>>]
+                      /\ pc' = [pc EXCEPT ![t] = "rel.dec"] /\ UNCHANGED ip
+                 ELSE pc' = pc /\ NextOp(t) /\ UNCHANGED <<ar, aw, slot>>
+              /\ UNCHANGED <<cur, min, ver, saw, held>> /\ Step(t)
+\* zero test, load and store in one critical section; then return - or, inside clear_thread_cache
+\* with a writer still in the slot, straight on to its release (same code segment)
 F_Advance(t) == /\ pc[t] = "rel.dec" /\ Fixed
                 /\ min' = IF ar = 0 /\ aw = 0 THEN cur ELSE min
-                /\ pc' = [pc EXCEPT ![t] = "api"] /\ NextOp(t)
-                /\ UNCHANGED <<cur, ar, aw, ver, saw, held>> /\ Step(t)
+                /\ IF Op(t) = "X" /\ slot[t]["W"] /= <<>>
+                   THEN /\ aw' = aw - 1 /\ slot' = [slot EXCEPT ![t]["W"] = <<>>]
+                        /\ UNCHANGED <<pc, ip>>
+                   ELSE /\ pc' = [pc EXCEPT ![t] = "api"] /\ NextOp(t)
+                        /\ UNCHANGED <<aw, slot>>
+                /\ UNCHANGED <<cur, ar, ver, saw, held>> /\ Step(t)
 
 Pinned(t) == \/ P_StartW(t) \/ P_CheckW(t) \/ P_CountW(t) \/ P_RetW(t)
              \/ P_StartR(t) \/ P_CountR(t) \/ P_RetR(t)
              \/ P_StartD(t) \/ (~Fixed /\ P_Zero(t)) \/ P_LoadCur(t) \/ P_StoreMin(t) \/ P_RetD(t)
-Repaired(t) == \/ F_AcqW(t) \/ F_AcqR(t) \/ F_StartD(t) \/ F_Advance(t)
+Repaired(t) == \/ F_AcqW(t) \/ F_AcqR(t) \/ F_Hit(t) \/ F_StartD(t) \/ F_Advance(t)
+               \/ F_Cache(t) \/ F_ScopeEnd(t) \/ F_Clear(t)
                \/ (Fixed /\ (P_RetW(t) \/ P_RetR(t)))
 
 Next == \E t \in Threads : Pinned(t) \/ Repaired(t)
 Spec == Init /\ [][Next]_vars
 
 (* ---------------- the contract's properties, through the refinement mapping ---------------- *)
-LiveToks == { <<t, i>> : t \in Threads, i \in 1..3 } \* index set helper (bounded)
+\* live tokens = tokens held by a thread (or lent to a running closure) + tokens parked in a slot
 AllHeld == UNION { { [t |-> t, kind |-> held[t][i].kind, ver |-> held[t][i].ver] : i \in 1..Len(held[t]) } : t \in Threads }
+              \cup UNION { { [t |-> t, kind |-> k, ver |-> slot[t][k][1].ver] : k \in { k2 \in {"R", "W"} : slot[t][k2] /= <<>> } } : t \in Threads }
 OneWriter == OneWriterMode => Cardinality({ x \in AllHeld : x.kind = "W" }) <= 1
 MinNotAboveLive == \A x \in AllHeld : min <= x.ver
-Quiet == \A t \in Threads : pc[t] = "api"
+Quiet == \A t \in Threads : pc[t] \in {"api", "s.in"}
 CountsMatch == Quiet => /\ ar = Cardinality({ x \in AllHeld : x.kind = "R" })
                         /\ aw = Cardinality({ x \in AllHeld : x.kind = "W" })
 Done == \A t \in Threads : pc[t] = "api" /\ ip[t] > Len(Prog[t])
